@@ -306,6 +306,24 @@ def res_type(op):
     return RES_TYPE.get(op, "-")
 
 
+def storable(ty, val):
+    """structural sanity of a value before it is fed back into the crate (the harness refuses invalid arguments)"""
+    try:
+        if ty == "D":
+            return -719162 <= val <= 2932896
+        if ty == "YM":
+            return abs(val) <= 2136000000
+        if ty == "T":
+            return 0 <= val[0] < 86400 and 0 <= val[1] < 1000000
+        if ty in ("TS", "OD"):
+            return -719162 <= val[0] <= 2932896 and 0 <= val[1] < 86400 and 0 <= val[2] < 1000000 and (ty == "TS" or val[2] == 0)
+        if ty == "DT":
+            return (abs(val[0]) < 100000000 or val == [100000000, 0, 0] or val == [-100000000, 0, 0]) and 0 <= val[1] < 86400 and 0 <= val[2] < 1000000
+    except Exception:
+        return False
+    return False
+
+
 def sessions(v, tag, nsessions, steps, aspects):
     """Drives random chained sessions on the real crate (values flow from call to
     call through six registers) and validates each recorded session with
@@ -346,8 +364,8 @@ def sessions(v, tag, nsessions, steps, aspects):
                     raise ToolError("harness died in session %d at %s %r" % (k, op, a))
                 ev = json.loads(line)
                 put = res_type(op)
-                if not (ev["r"][0] == 0 and put in regs):
-                    put = "-"
+                if not (ev["r"][0] == 0 and put in regs and storable(put, ev["r"][1])):
+                    put = "-"        # an out-of-range value is judged at its event (ValueInRangeX) but never fed back
                 else:
                     regs[put] = ev["r"][1]
                 fh.write(json.dumps({"i": i, "op": op, "a": ev["a"], "r": ev["r"], "use": use, "tys": tys, "put": put}) + "\n")
@@ -963,8 +981,10 @@ def random_pictures(v, n, maxtok=40):
     for i in range(n):
         k = rnd.choice([1, 2, 3, 5, 8, 13, 20, 30, 35, 36, 37, 40]) if i % 3 else rnd.randint(1, maxtok)
         pic = []
+        longonly = i % 7 == 3         # pictures made of the widest tokens only (up to 36 x MONTH = 180 characters)
         for _ in range(k):
-            sp = rnd.choice(TOKEN_SPELLINGS)
+            sp = rnd.choice(["MONTH", "MONTH", "YYYY", "HH24", "HH12", "A.M.", "P.M.", "DDD", "DAY", "MON", "FF9"]) if longonly \
+                else rnd.choice(TOKEN_SPELLINGS)
             if sp == " ":
                 sp = " " * rnd.choice([1, 1, 2, 3, 7, 31, 100, 255, 256, 257, 300, 511, 512, 600])
             mode = rnd.randint(0, 3)
